@@ -179,6 +179,10 @@ def run_C02(ctx):
          dgen(ctx, b, "big", None, ["-count", 4 if q else 30])]
     ctx.exhaustive = True
     decide(ctx, b, "TraceDir", DIR_INVS["C02"] + ["Inv_C02_Big"], t)
+    # bucket choice: both real bit-slicing helpers (verif-tagged exports) against the MSB-first slice, every (offset, width)
+    vlib.model_check(ctx, "MCHashBits", open(vlib.os.path.join(vlib.SPEC, "MCHashBits.cfg")).read(), name="MCHashBits")
+    ht = [gen(ctx, b, "hashbits", ["hash-gen", "-count", 8 if q else 200, "-seed", ctx.seed])]
+    decide(ctx, b, "TraceHash", ["Inv_NoPanic", "Inv_C02_HashReader", "Inv_C02_HashBuilder"], ht)
 
 
 def run_C08(ctx):
